@@ -24,6 +24,7 @@ Definition w_prod (kd : kind) (p : prod_pc) : nat :=
   | PNone => 0
   | PLoop => match kd with KErr => 7 | _ => 2 end
   | PSend _ => 6
+  | PClosing => 1
   | PDone => 0
   end.
 
@@ -60,7 +61,7 @@ Proof.
     cbn in *.
   all: split_starter starter0; cbn in *; destr_match Hs; inv_hyps; subst;
     unfold mu, w_run, steadyb, w_stops; cbn; try lia.
-  all: unfold prod_facts in *; try (destruct prod0 as [| |[|]|]); cbn in *; inv_hyps; try contradiction; try discriminate; try congruence; try lia.
+  all: unfold prod_facts in *; try (destruct prod0 as [| |[|]| |]); cbn in *; inv_hyps; try contradiction; try discriminate; try congruence; try lia.
 Qed.
 
 Definition mu_ok (c : cfg) (s : state) (t : tid) (s' : state) : Prop :=
@@ -75,7 +76,7 @@ Proof.
   all: split_starter starter0; cbn in *; inv_hyps; subst; try discriminate Hs.
   all: unfold core_facts, sst_facts, prod_facts, core_exiting in *; cbn in *.
   all: try (destruct core0; try discriminate Hs; try contradiction).
-  all: try (destruct prod0 as [| |[|]|]; cbn in *; inv_hyps; try contradiction; try discriminate).
+  all: try (destruct prod0 as [| |[|]| |]; cbn in *; inv_hyps; try contradiction; try discriminate).
   all: try destruct abort0; try destruct k; cbn in *; destr_match Hs; inv_hyps; try contradiction; try discriminate; try congruence.
   all: unfold mu, w_run, steadyb, w_stops; cbn; split; intros; try discriminate; try lia.
 Qed.
@@ -85,10 +86,10 @@ Lemma mu_step_prod n c s ch s' :
 Proof.
   intros Hfair [Hc Ht Hl Hm Hi Hd Ha Hp] Hs. unfold mu_ok, counted. rewrite Hs.
   open_state s. destruct c as [k f w fx fr]. cbn in Hfair. subst fr.
-  unfold step in Hs; cbn in Hc; subst crashed0; cbn [crashed] in Hs; unfold step_prod, close_prod, release_all in Hs; cbn in *.
+  unfold step in Hs; cbn in Hc; subst crashed0; cbn [crashed] in Hs; unfold step_prod, begin_close, finish_close, release_all in Hs; cbn in *.
   all: split_starter starter0; cbn in *; inv_hyps; subst; try discriminate Hs.
   all: unfold core_facts, sst_facts, prod_facts, core_exiting in *; cbn in *.
-  all: try (destruct prod0 as [| |[|]|]; try discriminate Hs; try contradiction).
+  all: try (destruct prod0 as [| |[|]| |]; try discriminate Hs; try contradiction).
   all: try (destruct core0; cbn in *; inv_hyps; try contradiction; try discriminate).
   all: destruct ch; try destruct abort0; try destruct k; cbn in *; destr_match Hs; inv_hyps; try contradiction; try discriminate; try congruence.
   all: unfold mu, w_run, steadyb, w_stops; cbn; split; intros; try discriminate; try lia.
